@@ -38,3 +38,47 @@ Definition receipt_ext (t : txd) (ca : addr) (ls : list logbits) (r : txres) : o
    assumed-failed receipt without logs in the transient store: they contribute nothing) *)
 Definition block_bloom_bits (rs : list (option rext)) : list Z :=
   flat_map (fun r => match r with Some x => x_bloom x | None => [] end) rs.
+
+(* ---------------------------------------------------------------- execution aborted by a panic inside the handler
+   x/evm/vm/state_db.go has no error channel towards the interpreter: AddBalance -> mintCoins PANICS when the bank refuses
+   the credit (SendCoinsFromModuleToAccount towards a blocked address: every module account, app.BlockedModuleAccountAddrs)
+   and CommitMultiStore -> DestroyAccount PANICS on a touched, empty module account (CheckIfAccountIsSuitableForDestroyingAt).
+   Nothing between the interpreter and baseapp.runTx recovers: runTx's deferred recover turns the panic into
+   errorsmod.ErrPanic (codespace "undefined", code 111222), and
+
+     * the ante handler's cache had already been written (fee for the whole gas limit moved to the fee collector,
+       sequence + 1, transient tx count + 1, per-index gas := gas limit, the assumed-failed receipt),
+     * the message cache is dropped: the handler's undoing of the nonce increment, every balance movement of the
+       interpreter up to the panic, the refund - nothing of it remains,
+     * neither ApplyTransaction's "consume the whole limit" (error path) nor its reset to the EVM's gas used (success path)
+       ran: the gas meter holds what it held when the panic was raised, [gu], an OBSERVED figure (0 in practice: the
+       Ethereum lane's meter is only written by those two resets); runTx's deferred consumeBlockGas adds exactly that
+       figure to the block gas meter,
+     * the transaction keeps its Ethereum index (ethereum_tx event of the ante handler), there is no receipt event.
+
+   WHETHER the execution reaches such a panic is the interpreter's business (oracle, like evm_out: the harness's reference
+   interpreter predicts it); but it can only be reached once the state transition's own checks have passed
+   (state_transition_core.go TransitionDb: intrinsic gas, CanTransfer for the top-level value) - before them the
+   transaction fails as TxPipe.deliver says (CoreErr: gas used = limit).  TxPipe.deliver is not touched: this is an
+   outcome handled beside it. *)
+
+Definition no_exec : evm_out := mkOut 0 false 0 [] 0 false.
+
+(* the checks of TransitionDb that precede the interpreter (as in TxPipe.deliver's core_err, without the commit error) *)
+Definition pre_exec_err (sa : st) (t : txd) : bool :=
+  (t_gas t <? t_intrinsic t) || ((0 <? t_value t) && (bal sa (t_from t) <? t_value t)).
+
+(* is the interpreter (and so the panic) reached at all? *)
+Definition panic_reached (s : st) (t : txd) : bool :=
+  negb (blk_out_of_gas s) &&
+  match ante s t with inl _ => false | inr sa => negb (pre_exec_err sa t) end.
+
+(* one Ethereum transaction whose execution panics; [gu] = consensus gas used as observed *)
+Definition deliver_panic (s : st) (t : txd) (gu : Z) : st * txres :=
+  if blk_out_of_gas s then deliver s t no_exec
+  else match ante s t with
+  | inl _ => deliver s t no_exec
+  | inr sa =>
+      if pre_exec_err sa t then deliver s t no_exec
+      else (set_blk_used sa (blk_used sa + gu), no_receipt CoreErr (t_gas t) gu (tx_count sa - 1))
+  end.
